@@ -223,6 +223,16 @@ class Ctx:
             self.fail("crash", f"harness:{name}", f"{' '.join(gcmd)} exited {rc}:\n{out[-1500:]}", stream=name, seed=seed, n=n, cmd=cmd, args=list(args))
             ob["detail"] = "harness crashed"
             return None
+        # the driver is interpreted: the compiled modules it imports must be up to date
+        dsrc = open(os.path.join(LEAN, driver)).read()
+        dmods = [m for m in re.findall(r"^\s*import\s+([A-Za-z0-9_.]+)", dsrc, re.M) if m.split(".")[0] in ("PocketModel", "Proofs", "Props")]
+        if dmods:
+            rc, out = sh(["lake", "build"] + dmods, cwd=LEAN, timeout=3000)
+            if rc != 0:
+                tail = "\n".join([l for l in out.splitlines() if not l.startswith("trace:")][-20:])
+                self.fail("proof", f"build-driver:{driver}", f"lake build of driver imports failed:\n{tail}", stream=name, seed=seed, n=n, cmd=cmd, args=list(args))
+                ob["detail"] = "driver imports do not build"
+                return None
         with open(trace) as fin, open(verdicts, "w") as fout:
             p = subprocess.run(["lake", "env", "lean", "--run", driver], cwd=LEAN, stdin=fin, stdout=fout,
                                stderr=subprocess.PIPE, text=True, timeout=drv_timeout)
